@@ -449,8 +449,10 @@ def check_lengths(part, lengths, cfg, p):
                                                                          other=items[1][1]))
         else:
             table[f'{name}{list(lens)}'] = repr(next(iter(seen)))
+    names = {n for t_ in SAME_LENGTH for n in t_[:2]}
+    part.note('length_table', {f'{p}|{name}|{list(lens)}|{next(iter(seen))!r}|{next(iter(seen.values()))!r}': 1
+                               for (name, lens), seen in lengths.items() if name in names and len(seen) == 1})
     if p == 5:
-        part.note('public_length_table_GF5', {k: 1 for k in list(table)[:0]})
         part.notes.setdefault('public_lengths', [])
         part.notes['public_lengths'] += [f'{k}->{v}' for k, v in sorted(table.items()) if k.split('[')[0] in
                                          ('add', 'mul', 'floordiv', 'mod', 'gcd', 'gcdext', 'invert', 'powmod:3', 'lshift:2', 'rshift:1', 'monic', 'reverse')][:40]
@@ -641,7 +643,32 @@ def run_job(job):
     return part
 
 
+SAME_LENGTH = [('mod', 'mod:static', None), ('mod', 'divmod', 1), ('floordiv', 'divmod', 0), ('add', 'add:static', None),
+               ('sub', 'sub:static', None), ('mul', 'mul:static', None), ('gcd', 'gcdext', 0), ('invert', 'gcdext', 1)]
+
+
+def cross_lengths(total, table):
+    """Equivalent call forms must declare the same public result length (evaluated over the merged tables of all jobs)."""
+    tab = {}
+    for key in table:
+        p, name, lens, ln, ex = key.split('|')
+        tab[(p, name, lens)] = (eval(ln), eval(ex))
+    for a_, b_, comp in SAME_LENGTH:
+        for (p, name, lens), (la, exa) in sorted(tab.items()):
+            if name != a_ or (p, b_, lens) not in tab:
+                continue
+            lb, exb = tab[(p, b_, lens)]
+            lb = lb[comp] if comp is not None else lb
+            total.case(key=None, nontrivial=True)
+            if la != lb:
+                total.violation(f'C38:{b_.split(":")[0]}:public-length-differs-from:{a_}',
+                                f'[sp/GF({p})] public input lengths {lens}: {a_} declares result length {la}, the equivalent {b_}'
+                                f'{"" if comp is None else f"[{comp}]"} declares {lb}',
+                                dict(engine='sp', p=int(p), name=b_, inputs=exb, mode='seeded', script={}, seed=0, other_name=a_, comp=comp))
+
+
 def coverage_extra(tier, seed, total):
+    cross_lengths(total, total.notes.pop('length_table', {}))
     return dict(primes=list(PRIMES), arrays_per_prime={str(p): {k: len(v) for k, v in domains(p, tier).items()} for p in PRIMES},
                 operations=len(OP_NAMES[5]))
 
@@ -663,5 +690,10 @@ def replay(case):
     for inputs in [case['inputs']] + ([case['other']] if case.get('other') else []):
         run_case(part, env, seam, sp, case['name'], (arity, cls, fn, ref, kind), plain, tuple(tuple(c) for c in inputs), case['mode'], script,
                  case['seed'], f"sp/GF({case['p']})/k{K_SP}", lengths)
+    if case.get('other_name'):
+        plain2, arity2, cls2, fn2, ref2, kind2 = ops[case['other_name']]
+        run_case(part, env, seam, sp, case['other_name'], (arity2, cls2, fn2, ref2, kind2), plain2, tuple(tuple(c) for c in case['inputs']),
+                 'seeded', None, case['seed'], f"sp/GF({case['p']})/k{K_SP}", lengths)
     check_lengths(part, lengths, f"sp/GF({case['p']})", case['p'])
+    cross_lengths(part, part.notes.pop('length_table', {}))
     return part
